@@ -1,4 +1,12 @@
-import Iauthd.Addr.Spec
+import Iauthd.Addr.ProofsMask
+import Iauthd.Addr.ProofsSafe
+import Iauthd.Addr.ProofsRef
+import Iauthd.Addr.ProofsRound
+import Iauthd.Addr.ProofsMaskText
+/-
+  Counterexamples for the pinned snapshot (kept as theorems so that the record of what was
+  wrong is checked on every build) and other concrete facts about the parser model.
+-/
 namespace Iauthd.Addr
 
 /-- F7: `1:0:0:2:0:3:0:0` is printed as `1:0:0:2:0::` by the pinned printer (group 5 lost). -/
@@ -9,6 +17,69 @@ theorem ntopPinned_F7 :
 /-- F8: `0:1:2:3:4:5:6:7` is printed as `0::1:2:3:4:5:6:7` by the pinned printer. -/
 theorem ntopPinned_F8 :
     ntopPinned (Addr.ofList [0, 1, 2, 3, 4, 5, 6, 7]) 40 = ([48, 58, 58, 49, 58, 50, 58, 51, 58, 52, 58, 53, 58, 54, 58, 55], 16) := by
+  decide
+
+/-- … and the reference grammar does not read these texts back: C12 fails for the pinned printer. -/
+theorem ntopPinned_F7_not_roundtrip :
+    refParse (ntopPinned (Addr.ofList [1, 0, 0, 2, 0, 3, 0, 0]) 40).1 ≠ some (Addr.ofList [1, 0, 0, 2, 0, 3, 0, 0]) := by
+  decide
+
+theorem ntopPinned_F8_rejected :
+    refParse (ntopPinned (Addr.ofList [0, 1, 2, 3, 4, 5, 6, 7]) 40).1 = none := by
+  decide
+
+/-- the repaired printer on the same two addresses: `1::2:0:3:0:0` and `0:1:2:3:4:5:6:7` -/
+theorem ntop_F7_fixed :
+    ntop (Addr.ofList [1, 0, 0, 2, 0, 3, 0, 0]) 40 = ([49, 58, 58, 50, 58, 48, 58, 51, 58, 48, 58, 48], 12) := by
+  decide
+
+theorem ntop_F8_fixed :
+    ntop (Addr.ofList [0, 1, 2, 3, 4, 5, 6, 7]) 40 = ([48, 58, 49, 58, 50, 58, 51, 58, 52, 58, 53, 58, 54, 58, 55], 15) := by
+  decide
+
+/-! ### concrete facts about the (unrepaired) parser -/
+
+/-- F23: `1.2.3.4.5` is accepted as 5.2.3.4 (shift count out of range, x86 masking);
+    outside C13's wording, modelled, never alarmed. -/
+theorem pton_F23 : (pton [49, 46, 50, 46, 51, 46, 52, 46, 53] false false).toOption
+    = some ⟨9, Addr.ofList [0, 0, 0, 0, 0, 65535, 0x502, 0x304], none, false⟩ := by decide
+
+/-- `" ."` with trailing text allowed "succeeds" (returns 1) on the uninitialised `ip4`. -/
+theorem pton_uninit_witness : (pton [32, 46] true true).toOption
+    = some ⟨1, Addr.ofList [0, 0, 0, 0, 0, 65535, 0, 0], none, true⟩ := by decide
+
+/-- F26: the CIDR text `1:2:3:4:5:6:7::/112` is rejected (the seven groups and the "::"
+    fill all eight slots, the loop ends before it sees the '/'). -/
+theorem pton_F26_cidr_rejected :
+    ((pton [49, 58, 50, 58, 51, 58, 52, 58, 53, 58, 54, 58, 55, 58, 58, 47, 49, 49, 50] true false).toOption.map
+      (·.ret)) = some 0 := by decide
+
+/-- F26, plain form: `1:2:3:4:5:6:7::` is accepted but `*bits` is never written. -/
+theorem pton_F26_bits_unwritten :
+    (pton [49, 58, 50, 58, 51, 58, 52, 58, 53, 58, 54, 58, 55, 58, 58] true false).toOption
+      = some ⟨15, Addr.ofList [1, 2, 3, 4, 5, 6, 7, 0], none, false⟩ := by decide
+
+/-- `1:2:3:4:5:6:7:8:` (trailing colon after eight groups) is accepted. -/
+theorem pton_trailing_colon :
+    (pton [49, 58, 50, 58, 51, 58, 52, 58, 53, 58, 54, 58, 55, 58, 56, 58] false false).toOption
+      = some ⟨16, Addr.ofList [1, 2, 3, 4, 5, 6, 7, 8], none, false⟩ := by decide
+
+/-! ### the same texts after fix_pton_cidr.diff (`ptonFixed = ptonWith true`) -/
+
+/-- `1:2:3:4:5:6:7::/112` is then read as 1:2:3:4:5:6:7:0/112 -/
+theorem ptonFixed_F26_cidr :
+    (ptonFixed [49, 58, 50, 58, 51, 58, 52, 58, 53, 58, 54, 58, 55, 58, 58, 47, 49, 49, 50] true false).toOption
+      = some ⟨19, Addr.ofList [1, 2, 3, 4, 5, 6, 7, 0], some 112, false⟩ := by decide
+
+/-- … and the plain form sets `*bits` to 128 -/
+theorem ptonFixed_F26_plain :
+    (ptonFixed [49, 58, 50, 58, 51, 58, 52, 58, 53, 58, 54, 58, 55, 58, 58] true false).toOption
+      = some ⟨15, Addr.ofList [1, 2, 3, 4, 5, 6, 7, 0], some 128, false⟩ := by decide
+
+/-- `1:2:3:4:5:6:7::8` stays rejected, `1:2:3:4:5:6:7:::` too -/
+theorem ptonFixed_still_rejects :
+    ((ptonFixed [49, 58, 50, 58, 51, 58, 52, 58, 53, 58, 54, 58, 55, 58, 58, 56] false false).toOption.map (·.ret)) = some 0 ∧
+    ((ptonFixed [49, 58, 50, 58, 51, 58, 52, 58, 53, 58, 54, 58, 55, 58, 58, 58] false false).toOption.map (·.ret)) = some 0 := by
   decide
 
 end Iauthd.Addr
